@@ -78,32 +78,6 @@ def norm_model_env(reply):
     if t and t[0] == "err": return " ".join(t[:2])
     return reply
 
-def with_ev(laze, driver, reqs):
-    """run the model, supplying evalexpr results from the real crate on demand"""
-    tables = [dict() for _ in reqs]
-    out = core.run_model(driver, reqs)
-    for _ in range(12):
-        need = {}
-        for i, r in enumerate(out):
-            t = r.split()
-            if t[:2] == ["err", "expr"] and len(t) > 2 and t[2] not in tables[i]:
-                need.setdefault(t[2], []).append(i)
-        if not need: break
-        exprs = list(need)
-        ans = core.run_impl_oracle(laze, ["evalexpr " + e for e in exprs])
-        redo = set()
-        for e, a in zip(exprs, ans):
-            for i in need[e]:
-                tables[i][e] = a; redo.add(i)
-        redo = sorted(redo)
-        lines = []
-        for i in redo:
-            tb = tables[i]
-            lines.append(reqs[i] + " %d " % len(tb) + " ".join("%s %s" % (e, ("ok " + a.split()[1]) if a.startswith("ok ") else "err") for e, a in tb.items()))
-        new = core.run_model(driver, lines)
-        for i, r in zip(redo, new): out[i] = r
-    return out, tables
-
 def clean_shape(req):
     """inputs on which the property text leaves no room: no backslash directly before another
     backslash that precedes ${, every $( closed"""
@@ -121,7 +95,7 @@ def run(rep, tier, seed, rng):
     cases = gen(rng, tier)
     reqs = [c[0] for c in cases]
     impl = core.run_impl_oracle(laze, reqs)
-    model, tables = with_ev(laze, driver, reqs)
+    model, tables = core.run_model_ev(laze, driver, reqs)
     sample_idx = [i for i, c in enumerate(cases) if not tables[i]][:4000]
     nvm, vmbad = core.vm_crosscheck([reqs[i] for i in sample_idx], [model[i] for i in sample_idx], n=40)
     for b in vmbad:
